@@ -122,6 +122,20 @@ def min_image_sq(G, k, N, R=None):
     return best
 
 
+def min_image_sq_pbc(G, k, N, R, pbc):
+    """As min_image_sq for a cell that is periodic only along the axes with pbc[i] True; k is the plain difference of two
+    coordinates inside the cell."""
+    c = [((x % N) - N if 2 * (x % N) > N else (x % N)) for x in k]
+    rng_ = [range(-R, R + 1) if pbc[i] else [None] for i in range(3)]
+    best = None
+    for n in itertools.product(*rng_):
+        v = [(c[i] + N * n[i]) if pbc[i] else k[i] for i in range(3)]
+        q = norm_sq(G, v)
+        if best is None or q < best:
+            best = q
+    return best
+
+
 def pick_sites(rng, G, N, n_sites, min_sep):
     """n_sites grid points (ints in 0..N-1, units 1/N) pairwise at least min_sep Angstrom apart (min image)."""
     R = image_range(G)
